@@ -288,7 +288,12 @@ func (env *Env) eval(x Expr) (*Val, error) {
 			binders = append(binders, "("+name+" "+sort+")")
 			n.vars[qv.Name] = &Val{T: gt, L: []Sc{{name, sort}}}
 		}
+		nq := len(e.qbound)
+		for _, v := range x.Vars {
+			e.qbound = append(e.qbound, n.vars[v.Name].L[0].T)
+		}
 		b, err := n.evalBool(x.Body)
+		e.qbound = e.qbound[:nq]
 		if err != nil {
 			return nil, err
 		}
@@ -937,6 +942,28 @@ func (env *Env) evalCall(x *ECall) (*Val, error) {
 				}
 			}
 			return nil, fmt.Errorf("unbox(x, type(T))")
+		case "implements":
+			// implements(x, type(I)): the dynamic type of interface value x (or the type tag x) implements interface I
+			if len(x.Args) == 2 {
+				if tl, ok := x.Args[1].(*ETypeLit); ok {
+					gt, err := e.resolveGoType(tl.T, env.pkgPath, env.imports)
+					if err != nil {
+						return nil, err
+					}
+					if _, isIface := gt.Underlying().(*types.Interface); !isIface {
+						return nil, fmt.Errorf("implements() needs an interface type, got %s", typeStr(gt))
+					}
+					v, err := env.eval(x.Args[0])
+					if err != nil {
+						return nil, err
+					}
+					if len(v.L) == 2 || (len(v.L) == 1 && v.L[0].S == "Int") {
+						return mathVal(e.implementsTerm(v.L[0].T, gt), "Bool"), nil
+					}
+					return nil, fmt.Errorf("implements() needs an interface value or a type tag")
+				}
+			}
+			return nil, fmt.Errorf("implements(x, type(I))")
 		case "payload":
 			v, err := env.eval(x.Args[0])
 			if err != nil {
